@@ -5,13 +5,13 @@ set -u
 WT="$1"; M="$2"; NAME="$3"; PROP="$4"
 cd "$WT" || exit 3
 git checkout -q -- pipefunc
-/venv/bin/python "$M/demo.py" > /tmp/sc_clean.out 2>&1; rc_clean=$?
+/venv/bin/python "$M/demo.py" > /tmp/sc_$$_clean.out 2>&1; rc_clean=$?
 git apply "$M/patch.diff" || { echo "patch does not apply"; exit 3; }
-/venv/bin/python "$M/demo.py" > /tmp/sc_mut.out 2>&1; rc_mut=$?
+/venv/bin/python "$M/demo.py" > /tmp/sc_$$_mut.out 2>&1; rc_mut=$?
 timeout 3000 /venv/bin/python -m pytest -ra -q -p no:cacheprovider --timeout=900 --continue-on-collection-errors --junitxml=/tmp/sc_$$.xml > /dev/null 2>&1
-python3 /verif/harness/baseline_check.py /tmp/sc_$$.xml > /tmp/sc_base.out 2>&1; rc_base=$?
+python3 /verif/harness/baseline_check.py /tmp/sc_$$.xml > /tmp/sc_$$_base.out 2>&1; rc_base=$?
 git checkout -q -- pipefunc; rm -rf my_run_folder tmp_path .coverage coverage.xml htmlcov 2>/dev/null
-echo "demo clean rc=$rc_clean  demo mutated rc=$rc_mut  baseline rc=$rc_base ($(head -1 /tmp/sc_base.out))"
+echo "demo clean rc=$rc_clean  demo mutated rc=$rc_mut  baseline rc=$rc_base ($(head -1 /tmp/sc_$$_base.out))"
 if [ $rc_clean -eq 0 ] && [ $rc_mut -ne 0 ] && [ $rc_base -eq 0 ]; then
   D=/verif/seeded/$NAME; mkdir -p "$D"
   cp "$M/patch.diff" "$M/demo.py" "$D/"; cp "$M/README.md" "$D/README.md"
@@ -27,6 +27,6 @@ json.dump({"property": prop, "name": name,
 PY
   echo "filed $D"
 else
-  echo "NOT CONFIRMED"; tail -5 /tmp/sc_mut.out
+  echo "NOT CONFIRMED"; tail -5 /tmp/sc_$$_mut.out
 fi
-rm -f /tmp/sc_$$.xml
+rm -f /tmp/sc_$$.xml /tmp/sc_$$_*.out
